@@ -94,6 +94,13 @@ check(
     "Relaxations are per (parameter, finding) and decided on the input: P47 (prose-derived type/default), P12 (hostile string default), P29 (sqlalchemy column of unmapped type: format skipped), P46 (sqlalchemy class header doc), P21/P22 (google/numpydoc return entry).",
 )
 
+check(
+    "C15",
+    "grammar-based Hypothesis generator of docstrings with marker words; tiling (slice-identity) oracle for the header/args/footer split and header-line-subsequence / no-absorption oracle for style conversion",
+    "Generated-input search over multi-paragraph headers x three section styles x footers x blank-line counts x indentation: the split must tile the original exactly (prefix, suffix, no overlap, exact concatenation in column 0) for both shapes of `current`; conversions to all three styles (directly and through function.parse of a def carrying the docstring) must keep every header line in order and must not absorb marker words into names, types or defaults.",
+    "Footers are broadly mishandled by the tree (P20, P49), as are `:rtype:` lines (P50), text without trailing newline (P48), indented numpydoc (P25) and the exact section/footer boundary (P51): those classes relax the re-parse clauses only; the tiling and header clauses are never relaxed.",
+)
+
 NOT_YET = "check not built yet in this round (work in progress; DESIGN.md section 4 has the plan)"
 
 
